@@ -379,11 +379,14 @@ class Impl:
                 super().__init__(port_id)
                 self.written = []
                 self.seq_calls = []
+                self.write_delay = 0
 
             async def read_value(self):
                 raise core_ports.SkipRead()
 
             async def write_value(self, value):
+                if self.write_delay:
+                    await asyncio.sleep(self.write_delay)     # a slow driver: writes issued meanwhile overlap with this one
                 self.written.append(value)
 
             async def set_sequence(self, values, delays, repeat):
@@ -468,26 +471,80 @@ class Impl:
             return 'E500'       # uncaught: the web layer answers 500
         return None
 
+    OTHER = {'number': 987654.25, 'boolean': False}
+
     async def run_def(self, d, bodies, seqs):
-        """-> (value results, sequence results); a result = {'json': parsed body, 'outcome': str|None, 'raw': str,
-        'written': [...], 'seq': [...], 'state_changed': bool}"""
+        """-> (value results, sequence results).  A value result is (body, r, info); r = {'json': parsed body, 'outcome':
+        str|None, 'raw': str, 'written': [...], 'seq': [...], 'state_changed': bool}; info says what the port's last read
+        value was.  The port's last read value is, in turn: None (fresh port); a value of the port's type that differs from
+        the written one; and — second step on the same port — EXACTLY the value the driver received for the same body a
+        moment ago (the same value written twice: it must be delivered twice)."""
         port = await self.make_port(d)
         pid = port.get_id() if d['exists'] else 'c05-no-such-port'
         out_v, out_s = [], []
         try:
-            for body in bodies:
-                out_v.append(await self.one(port, pid, 'value', body))
+            for i, body in enumerate(bodies):
+                if i % 4 == 1:
+                    last = self.OTHER[d['type']]
+                    port.set_last_read_value(last)
+                    out_v.append((body, await self.one(port, pid, 'value', body), {'last_read': describe(last)}))
+                    port.set_last_read_value(None)
+                    continue
+                r = await self.one(port, pid, 'value', body)
+                out_v.append((body, r, {'last_read': None}))
+                if i % 4 != 3 and r['outcome'] == 'Accepted' and len(r['written']) == 1 and r['written'][0] is not None:
+                    w = r['written'][0]
+                    port.set_last_read_value(w)
+                    out_v.append((body, await self.one(port, pid, 'value', body),
+                                  {'last_read': describe(w), 'step': 'same request again; last read value = the value just delivered'}))
+                    port.set_last_read_value(None)
             for params in seqs:
                 out_s.append(await self.one(port, pid, 'sequence', json.dumps(params).replace('Infinity', '1e400').encode()))
         finally:
             await self.drop_port(port)
         return out_v, out_s
 
-    async def one(self, port, pid, entry, body):
+    async def run_overlap(self, d, body_a, body_b, delay=0.003):
+        """a is current (last read value), b is written on a slow driver and, while that write is in flight, a is written
+        again: both are accepted, the driver must receive b then a.  -> value results as in run_def, or [] when a / b are not
+        accepted on a fresh port."""
+        port = await self.make_port(d)
+        pid = port.get_id()
+        out = []
+        try:
+            ra = await self.one(port, pid, 'value', body_a)
+            if not (ra['outcome'] == 'Accepted' and len(ra['written']) == 1 and ra['written'][0] is not None):
+                return []
+            wa = ra['written'][0]
+            port.set_last_read_value(wa)
+            port.write_delay = delay
+            port.written.clear()
+            info = {'last_read': describe(wa), 'step': 'slow driver (%g s per write): b, then a while b is in flight' % delay}
+            t1 = asyncio.create_task(self.one(port, pid, 'value', body_b, clear=False))
+            await asyncio.sleep(delay / 3)
+            t2 = asyncio.create_task(self.one(port, pid, 'value', body_a, clear=False))
+            rs = list(await asyncio.gather(t1, t2))
+            calls = list(port.written)
+            accepted = [r for r in rs if r['outcome'] == 'Accepted']
+            if len(calls) == len(accepted):
+                for r in rs:
+                    r['written'] = [calls.pop(0)] if r['outcome'] == 'Accepted' else []
+            else:
+                for r in rs:
+                    r['written'] = []
+                    r['delivery_mismatch'] = {'accepted_requests': len(accepted), 'driver_calls': [describe(c) for c in port.written]}
+            out = [(body_b, rs[0], dict(info, request='b')), (body_a, rs[1], dict(info, request='a'))]
+        finally:
+            port.write_delay = 0
+            await self.drop_port(port)
+        return out
+
+    async def one(self, port, pid, entry, body, clear=True):
         req = self.request('PATCH', '/api/ports/%s/%s' % (pid, entry), body)
         handler = req.handler
-        port.written.clear()
-        port.seq_calls.clear()
+        if clear:
+            port.written.clear()
+            port.seq_calls.clear()
         before = (port.get_last_read_value(), port._sequence, port.is_enabled())
         params = handler.get_request_json()
         exc = None
@@ -615,14 +672,24 @@ SHARD = 800
 # ----------------------------------------------------------------------------------------------------------------
 # running a batch of (definition, bodies, sequences)
 
-def run_plan(ctx, res, plan, tag):
+def run_plan(ctx, res, plan, tag, overlap_budget=10 ** 9):
     """plan: list of (definition, [body bytes], [sequence params])"""
     impl = Impl.get()
 
     async def go():
         out = []
+        n_overlap = 0
         for d, bodies, seqs in plan:
-            out.append(await impl.run_def(d, bodies, seqs))
+            rv, rs = await impl.run_def(d, bodies, seqs)
+            # overlapping writes on a slow driver, with two distinct bodies this definition accepts
+            acc = []
+            for body, r, info in rv:
+                if r['outcome'] == 'Accepted' and info.get('last_read') is None and body not in acc:
+                    acc.append(body)
+            if len(acc) >= 2 and n_overlap < overlap_budget and d['exists']:
+                n_overlap += 1
+                rv = rv + await impl.run_overlap(d, acc[0], acc[-1])
+            out.append((rv, rs))
         return out
 
     t0 = time.time()
@@ -638,12 +705,21 @@ def run_plan(ctx, res, plan, tag):
 
     for (d, bodies, seqs), (rv, rs) in zip(plan, results):
         floats_in([d['min'], d['max'], d['step'], d['choices']], floats)
-        for body, r in zip(bodies, rv):
+        for body, r, info in rv:
             res['evaluations'] += 1
             bump('entry:value')
             bump('outcome:' + str(r['outcome']))
+            bump('last-read-value:' + ('none' if info.get('last_read') is None else
+                                       'overlapping-writes' if 'request' in info else
+                                       'equals-delivered' if 'step' in info else 'other'))
             floats_in(r['json'], floats)
             case = {'entry': 'value', 'definition': describe_def(d), 'body': body.decode()}
+            if info.get('last_read') is not None:
+                case['port_state'] = info
+            if r.get('delivery_mismatch'):
+                r2 = dict(r, raw='%s; %s' % (r['raw'], json.dumps(r['delivery_mismatch'])))
+                res['violations'].append(violation('wrong-delivery', case, r2, d))
+                continue
             obs = c_obs(r)
             if obs is None:
                 res['tie_failures'].append({'case': case, 'implementation': r['raw'], 'note': 'observation outside the model alphabet'})
@@ -839,6 +915,10 @@ def check(ctx, res):
         'bodies per definition: true/false/null/strings/arrays/objects, ints and floats at and next to (math.nextafter) every '
         'bound, grid points min + k*step computed decimally and in floats with their neighbours, off-grid points, 2^53+-1, '
         '1e308, 10^400, NaN, 1e400, -Infinity, -0.0, ints written as floats; 0-4 element sequences from the same pools. '
+        'Port state: the last read value is None, a different value of the port type, or (second step on the same port) exactly '
+        'the value just delivered for the same body; per definition one overlapping-writes scenario on a slow driver (a current, '
+        'write b, write a while b is in flight: driver must get b then a). Every accepted request must produce exactly one '
+        'driver call with coerce(transform(value)), in request order. '
         'distinct = distinct (definition, body); non-trivial = number port with at least one declared constraint and a numeric body')
     if ctx.replay:
         with open(ctx.replay) as f:
@@ -860,7 +940,7 @@ def check(ctx, res):
     res['exhaustive'] = False
     chunk = 60 if not full else 40
     for i in range(0, len(plan), chunk * 8):
-        run_plan(ctx, res, plan[i:i + chunk * 8], 'g%d' % i)
+        run_plan(ctx, res, plan[i:i + chunk * 8], 'g%d' % i, overlap_budget=(10 ** 9 if full else 120))
     for d, bodies, seqs in plan[:6]:
         res['samples'].append({'definition': describe_def(d), 'bodies': [b.decode() for b in bodies[:6]],
                                'sequences': [describe(s) for s in seqs[:1]]})
@@ -881,7 +961,8 @@ def search(ctx, res):
             break
 
 
-REPLAY_HELP = ('bin/check C05 --replay <this file>; or by hand: a core_ports.Port subclass with TYPE/MIN/MAX/INTEGER/STEP/CHOICES/'
+REPLAY_HELP = ('bin/check C05 --replay <this file> (case.port_state, if present, says what the port\'s last read value was / which '
+               'multi-step scenario the request belongs to; the replay re-runs the body twice on one port); or by hand: a core_ports.Port subclass with TYPE/MIN/MAX/INTEGER/STEP/CHOICES/'
                'WRITABLE class attributes as in case.definition, loaded with core_ports.load and enabled, then '
                'await patch_port_value(MockAPIRequest("PATCH", ..., access_level=ACCESS_LEVEL_NORMAL).handler, port_id, json.loads(case.body))')
 
